@@ -131,6 +131,11 @@ func InstallHooks() {
 		}
 		s.Yield(point)
 	}
+	simhook.AliasFn = func(key string) {
+		if s := sim.Cur(); s != nil {
+			s.Alias(key)
+		}
+	}
 	simhook.SelectFn = func(point string, n int) int {
 		s := sim.Cur()
 		if s == nil {
